@@ -385,6 +385,7 @@ impl<'a> Tr<'a> {
                     },
                     "ManuallyDrop" | "MaybeUninit" if targs.len() == 1 => self.conv_ty(targs[0]),
                     "PhantomData" => Ty::Unit,
+                    "PatternNorm" => Ty::Slice(Box::new(Ty::Int(IntTy::U8))),
                     _ => {
                         if self.pattern_generics.contains(&name) {
                             Ty::Slice(Box::new(Ty::Int(IntTy::U8)))
@@ -444,7 +445,11 @@ impl<'a> Tr<'a> {
                 let gens: Option<&syn::Generics> = self.idx.find_struct(n, &self.cur.module).map(|s| &s.generics).or_else(|| self.idx.find_enum(n, &self.cur.module).map(|e| &e.generics));
                 let mut args = String::new();
                 if let Some(g) = gens {
+                    let pats = pattern_generics(g);
                     for p in g.type_params() {
+                        if pats.contains(&p.ident.to_string()) {
+                            continue;
+                        }
                         args.push(' ');
                         args.push_str(&p.ident.to_string());
                     }
